@@ -136,7 +136,7 @@ def run(chk: Check):
                          if len(c["faults"]) > 1]
                 whole = [x for x in fs if sites[x[0][0] - 1].width > 1]
                 if not thorough:
-                    fs = whole + fs[:: max(1, len(fs) // (90 if kind == "akai" else 50))]
+                    fs = whole + fs[:: max(1, len(fs) // (70 if kind == "akai" else 40))]
                     multi = multi[:25]
                 for f in fs + multi:
                     dmg = faults.apply(image, sites, f)
